@@ -233,3 +233,34 @@ def h_pair(kind: int, sk: int, rel: int, s: int, e: int, t1: int, a: int) -> boo
         return False
     return mine[0].trigger == _abs(anchor + t1, tz) and theirs[0].trigger == _abs(a, utc) \
         and (mine[0].trigger.tzinfo is None) == (tz is None)
+
+
+def h_duplicates(kind: int, sk: int, s: int, t1: int, n: int, same: bool) -> bool:
+    """
+    Several VALARMs with IDENTICAL content (two plain "15 minutes before" reminders) each
+    contribute their own times; alarms that differ in one property do too.
+
+    pre: 0 <= kind <= 1 and 2 <= sk <= 3
+    pre: 0 <= s < DAY and -DAY <= t1 <= DAY
+    pre: 2 <= n <= 3
+    post: _
+    """
+    utc = stub_utc()
+    tz = utc if sk == 3 else None
+    c, S, E = _mk_component(kind, sk, s, 0, 0, utc)
+    alarms = []
+    for i in range(n):
+        al = Alarm()
+        al.add("action", "DISPLAY")
+        al.TRIGGER = timedelta(seconds=t1)
+        if not same:
+            al.add("description", "reminder %d" % i)
+        c.add_component(al)
+        alarms.append(al)
+    times = c.alarms.times
+    if len(times) != n:
+        return False
+    for al in alarms:
+        if sum(1 for t in times if t.alarm is al) != 1:
+            return False
+    return all(t.trigger == _abs(S + t1, tz) for t in times)
